@@ -96,6 +96,13 @@ func dumpv(b *strings.Builder, v reflect.Value, depth int) {
 				b.WriteString(fmt.Sprintf("%s %s=%s\n", ind, f.Name, val))
 			default:
 				b.WriteString(fmt.Sprintf("%s %s:\n", ind, f.Name))
+				if t.Name() == "FuncType" && f.Name == "Results" {
+					// `func f() ()`: an empty result list is a pair of redundant parentheses
+					if fl, ok := fv.Interface().(*ast.FieldList); ok && fl != nil && len(fl.List) == 0 {
+						b.WriteString(strings.Repeat(" ", depth+2) + "nil\n")
+						continue
+					}
+				}
 				dumpv(b, fv, depth+2)
 			}
 		}
